@@ -51,7 +51,7 @@ deriving DecidableEq, Repr
 inductive Act where
   | meterNew                 -- Meter(name), new name: Lock p.mtx; delegate == nil; insert; Unlock
   | meterGet                 -- Meter(name), known name or delegate != nil: Lock; lookup / delegate.Meter; Unlock
-  | mk (m : Nat)             -- instrument constructor on placeholder meter m (whole critical section)
+  | mk (m k : Nat)           -- instrument constructor (kind k of the 14) on placeholder meter m (whole critical section)
   | addLoad (i v : Nat)      -- Add/Record: `i.delegate.Load()`
   | addFwd                   -- forward to the loaded delegate, or drop
   | reg (m : Nat)            -- RegisterCallback on placeholder meter m (whole critical section)
@@ -91,6 +91,7 @@ structure St where
   nI : Nat := 0
   iMeter : Nat → Nat := fun _ => 0
   iDel : Nat → Bool := fun _ => false
+  iKind : Nat → Nat := fun _ => 0               -- which constructor made the instrument (never read by any label)
   nR : Nat := 0
   rMeter : Nat → Nat := fun _ => 0
   rOwner : Nat → Option Nat := fun _ => none
@@ -116,13 +117,15 @@ def step (old : Bool) (s : St) (t : Nat) (a : Act) : Option St :=
     else none
   | .meterGet =>
     if s.frame t = .idle ∧ s.provOwner = none then some s else none
-  | .mk m =>
+  | .mk m k =>
     if s.frame t = .idle ∧ m < s.nM ∧ s.mOwner m = none then
       if s.mDel m then
         -- `return m.delegate.Int64Counter(…)`: an SDK instrument is handed out
-        some { s with nI := s.nI + 1, iMeter := upd s.iMeter s.nI m, iDel := upd s.iDel s.nI true }
+        some { s with nI := s.nI + 1, iMeter := upd s.iMeter s.nI m, iDel := upd s.iDel s.nI true,
+                      iKind := upd s.iKind s.nI k }
       else
         some { s with nI := s.nI + 1, iMeter := upd s.iMeter s.nI m, iDel := upd s.iDel s.nI false,
+                      iKind := upd s.iKind s.nI k,
                       pend := upd s.pend m (s.pend m ++ [s.nI]) }
     else none
   | .addLoad i v =>
